@@ -61,7 +61,17 @@ PeakSpeed(P, s, h) == P.hosts[h].speeds[s.pst[h]]
 Speed(P, s, h) == RMul(PeakSpeed(P, s, h), Scale(P, s, h))               \* per core
 Bw(P, s, l) == IF HasProfile(P.links[l].bwprof) THEN ValueAtTk(P.links[l].bwprof, s.tk) ELSE P.links[l].bw
 Lat(P, s, l) == IF HasProfile(P.links[l].latprof) THEN ValueAtTk(P.links[l].latprof, s.tk) ELSE P.links[l].lat
-RouteLat(P, s, a) == SetSum(LAMBDA i : Lat(P, s, P.acts[a].links[i]), 1..Len(P.acts[a].links))
+\* P.zerolate = TRUE selects a *variant* in which the profile points of date 0 are not yet visible to what happens at
+\* date 0 itself (values read by the application, latency and bandwidth seen by a communication created at date 0); they
+\* act from the first advance of the clock on.  NOT the property; it characterises the known deviation of platforms built
+\* through the C++ API, for which nothing applies the points of date 0 before the actors start (KNOWN_FINDINGS C22:date-0:...).
+Early(P, s) == IF P.zerolate THEN RIsZero(s.now) ELSE FALSE
+ScaleSeen(P, s, h) == IF Early(P, s) THEN One ELSE Scale(P, s, h)
+HostOnSeen(P, s, h) == IF Early(P, s) THEN s.hon[h] ELSE HostOn(P, s, h)
+LinkOnSeen(P, s, l) == IF Early(P, s) THEN s.lon[l] ELSE LinkOn(P, s, l)
+BwSeen(P, s, l) == IF Early(P, s) THEN P.links[l].bw ELSE Bw(P, s, l)
+LatSeen(P, s, l) == IF Early(P, s) THEN P.links[l].lat ELSE Lat(P, s, l)
+RouteLat(P, s, a) == SetSum(LAMBDA i : LatSeen(P, s, P.acts[a].links[i]), 1..Len(P.acts[a].links))
 DiskCap(P, d, ch) == CASE ch = "r" -> P.disks[d].rbw [] ch = "w" -> P.disks[d].wbw
                        [] OTHER -> RMax(P.disks[d].rbw, P.disks[d].wbw)
 
@@ -202,7 +212,7 @@ Start(P, s) ==
                                        ELSE s.ast[a]],
             !.ready = [a \in Acts(P) |-> IF a \in due /\ ok(a) /\ RPos(lt(a)) THEN RAdd(s.now, lt(a)) ELSE s.ready[a]],
             !.cbound = [a \in Acts(P) |-> IF a \in due /\ P.acts[a].kind = "comm"
-                                          THEN SetMin({ Bw(P, s, P.acts[a].links[i]) : i \in 1..Len(P.acts[a].links) })
+                                          THEN SetMin({ BwSeen(P, s, P.acts[a].links[i]) : i \in 1..Len(P.acts[a].links) })
                                           ELSE s.cbound[a]],
             !.fin = [a \in Acts(P) |-> IF a \in due /\ ~ok(a) THEN s.now ELSE s.fin[a]]]
 
